@@ -390,6 +390,102 @@ def group_cases(ctx, n_cases):
             ctx.fail("oracle", "merge raised %r" % (e,), dict(inp, other_keys=other_keys))
 
 
+def groupby_cases(ctx, n_cases):
+    """groupby / get_group / groupby_apply on the three metadata carriers, each inside a short HISTORY: the grouped column is
+    overwritten (set_info, item assignment, attribute assignment) between calls, a second column is grouped jointly - the groups
+    are those of the metadata the object carries NOW, and the elements returned for a group are the ones tagged with it."""
+    rng = ctx.rng
+    for k in range(n_cases):
+        n = rng.randint(2, 6)
+        kind = ("iset", "frame", "group")[k % 3]
+        tags = rng.sample(range(1, 25), n)
+        if kind == "iset":
+            st = sorted(rng.sample(range(0, 60, 2), n)); en = [x + 1 for x in st]
+            obj = iset(st, en, SC, metadata={"tag": np.array(tags)})
+            elem_tags = lambda R: [int(x) for x in R.metadata["tag"].values] if "tag" in R.metadata_columns else None
+            data_tags = lambda R: [tags[st.index(ns(x) // SC)] for x in R.start]
+            ids = list(range(n))
+        elif kind == "frame":
+            labs = rng.sample(range(1, 40), n) if k % 2 else ["c%d" % x for x in rng.sample(range(1, 40), n)]
+            obj = nap.TsdFrame(farr([0, 1, 2], SC), np.array([[1000.0 * tg + r for tg in tags] for r in range(3)]), columns=labs,
+                               metadata={"tag": np.array(tags)})
+            elem_tags = lambda R: [int(x) for x in R.metadata["tag"].values] if "tag" in R.metadata_columns else None
+            data_tags = lambda R: [int(v // 1000) for v in np.asarray(R.values)[0]]
+            ids = list(range(n))          # groupby returns column POSITIONS for a TsdFrame
+        else:
+            keys = sorted(rng.sample(range(0, 40), n))
+            obj = nap.TsGroup({kk: nap.Ts(farr([tg, 50 + j], SC)) for j, (kk, tg) in enumerate(zip(keys, tags))}, time_support=iset([0], [60], SC),
+                              metadata=pd.DataFrame({"tag": tags}, index=keys))
+            elem_tags = lambda R: [int(R.metadata["tag"][kk]) for kk in R.keys()] if "tag" in R.metadata_columns else None
+            data_tags = lambda R: [ns(R[kk].t[0]) // SC for kk in R.keys()]
+            ids = keys
+        inp = dict(level="groupby", kind=kind, tags=tags, ids=[str(x) for x in ids], variant=k)
+        cond = None
+        for step in range(4):
+            new = [rng.choice("abc") for _ in range(n)]
+            how = ("set_info", "setitem", "setattr")[(k + step) % 3]
+            try:
+                if how == "set_info" or (step == 0 and kind != "iset" and False):
+                    obj.set_info(cond=np.array(new, dtype=object))
+                elif how == "setitem":
+                    obj["cond"] = np.array(new, dtype=object)
+                else:
+                    obj.cond = np.array(new, dtype=object)
+            except Exception as e:
+                ctx.count("groupby_set_raised:%s:%s" % (how, type(e).__name__))
+                try:
+                    obj.set_info(cond=np.array(new, dtype=object))
+                except Exception as e2:
+                    ctx.fail("oracle", "set_info(cond=...) raised %r" % (e2,), dict(inp, step=step)); break
+            cond = new
+            if step == 2:
+                c2 = [rng.choice([1, 2]) for _ in range(n)]
+                obj.set_info(second=np.array(c2))
+            ctx.case(("gb", kind, tuple(tags), tuple(cond), step)); ctx.count("groupby:%s:%s" % (kind, how))
+            rec = dict(inp, step=step, how=how, cond=cond)
+            try:
+                G = obj.groupby("cond")
+            except Exception as e:
+                ctx.fail("oracle", "groupby raised %r" % (e,), rec); break
+            want = {v: [ids[i] for i in range(n) if cond[i] == v] for v in sorted(set(cond))}
+            got = {str(v): [x if isinstance(x, str) else int(x) for x in list(ix)] for v, ix in G.items()}
+            if got != want:
+                ctx.fail("oracle", "groupby('cond') is not the grouping of the metadata the object carries now", rec, impl=got, expected=want)
+            for v in want:
+                try:
+                    R = obj.groupby("cond", get_group=v)
+                except Exception as e:
+                    ctx.fail("oracle", "groupby(get_group=%r) raised %r" % (v, e), rec); continue
+                wt = [tags[i] for i in range(n) if cond[i] == v]
+                if data_tags(R) != wt or elem_tags(R) != wt or list(R.metadata["cond"].values) != [v] * len(wt):
+                    ctx.fail("oracle", "groupby(get_group=%r): elements / metadata of the group" % v, rec,
+                             impl=dict(data=data_tags(R), meta=elem_tags(R), cond=[str(x) for x in R.metadata["cond"].values]), expected=wt)
+            try:
+                A = obj.groupby_apply("cond", lambda x: data_tags(x))
+                if {str(a): b for a, b in A.items()} != {v: [tags[i] for i in range(n) if cond[i] == v] for v in want}:
+                    ctx.fail("oracle", "groupby_apply('cond', f) does not hand f the elements of each group", rec, impl={str(a): b for a, b in A.items()})
+            except Exception as e:
+                ctx.fail("oracle", "groupby_apply raised %r" % (e,), rec)
+            if step >= 2:
+                G2 = obj.groupby(["cond", "second"])
+                want2 = {}
+                for i in range(n):
+                    want2.setdefault("%s|%d" % (cond[i], c2[i]), []).append(ids[i])
+                got2 = {"%s|%d" % (a, b): [x if isinstance(x, str) else int(x) for x in list(ix)] for (a, b), ix in G2.items()}
+                if got2 != want2:
+                    ctx.fail("oracle", "groupby(['cond', 'second']) is not the joint grouping of the current metadata", rec, impl=got2, expected=want2)
+            # a derived object (selection) groups by ITS rows
+            if step == 3 and n >= 3 and kind != "frame":
+                sub_ids = ids[1:]
+                S = obj[sub_ids] if kind == "group" else obj[1:]
+                gs = {str(v): [int(x) for x in ix] for v, ix in S.groupby("cond").items()}
+                ws = {}
+                for j, i in enumerate(range(1, n)):
+                    ws.setdefault(cond[i], []).append(ids[i] if kind == "group" else j)
+                if gs != ws:
+                    ctx.fail("oracle", "groupby on a selection of the object is not the grouping of the selected rows", rec, impl=gs, expected=ws)
+
+
 def run(ctx):
     q = ctx.quick
     iset_construct(ctx, 600 if q else 6000)
@@ -397,6 +493,7 @@ def run(ctx):
     iset_setops(ctx, 500 if q else 8000)
     frame_cases(ctx, 120 if q else 1500)
     group_cases(ctx, 150 if q else 2000)
+    groupby_cases(ctx, 90 if q else 1500)
 
 
 def replay(ctx, rec):
